@@ -7,6 +7,7 @@ import (
 	"encoding/json"
 	"fmt"
 	"os"
+	"runtime/debug"
 	"path/filepath"
 	"sort"
 	"sync"
@@ -246,4 +247,32 @@ func MkScratch(prefix string) string {
 		panic(err)
 	}
 	return d
+}
+
+// protect runs f and converts a raised Violation (or any other panic) into a value.
+func protect(f func()) (v *Violation) {
+	defer func() {
+		if r := recover(); r != nil {
+			if vv, ok := r.(*Violation); ok {
+				v = vv
+				return
+			}
+			v = &Violation{Oracle: "panic", Msg: fmt.Sprintf("panic: %v\n%s", r, debug.Stack())}
+		}
+	}()
+	f()
+	return nil
+}
+
+func mustJSON(v any) []byte {
+	b, err := json.Marshal(v)
+	if err != nil {
+		panic(err)
+	}
+	return b
+}
+
+func sha8(b []byte) []byte {
+	h := sha256.Sum256(b)
+	return h[:8]
 }
